@@ -78,7 +78,7 @@ func vAssert(ok bool, tag string) {
 }
 func vReach(tag string)            { vrtReached[tag]++ }
 func vRegion(name string, c bool)  {}
-func vNote(s string)               {}
+func vNote(s string)               { fmt.Printf("VERIF-NOTE: %q\n", s) }
 func vIsSym(x any) bool            { return false }
 func vNative() bool                { return true }
 func vHeld() int                   { return 0 }
@@ -149,7 +149,7 @@ func TestVerifReplay(t *testing.T) {
 }
 `
 
-var harnessFn = regexp.MustCompile(`(?m)^func (VHarness[A-Za-z0-9_]*)\(\)`)
+var harnessFn = regexp.MustCompile(`(?m)^func (V(?:Harness|Conform)[A-Za-z0-9_]*)\(\)`)
 
 // writeReplay writes a self-contained replay package for one counterexample and returns its directory.
 func writeReplay(verif, repo string, u *Unit, dir string, fn, tag string, params map[string]int, model map[string]uint64, extra map[string]any) error {
